@@ -53,7 +53,21 @@ def children():
         c.add("o", "not", fanin="m", output=True)
         return c
 
-    return {"ha": ha, "inv": inv, "clash": clash, "nested": nested}
+    def noin():
+        c = cg.Circuit("noin")
+        c.add("k", "1")
+        c.add("i", "not", fanin="k")  # an internal gate named like the box's input port; the child has no inputs
+        c.add("o", "buf", fanin="i", output=True)
+        return c
+
+    def extra():
+        c = cg.Circuit("extra")
+        c.add("i", "input")
+        c.add("j", "input")
+        c.add("o", "and", fanin=["i", "j"], output=True)
+        return c
+
+    return {"ha": ha, "inv": inv, "clash": clash, "nested": nested, "noin": noin, "extra": extra}
 
 
 def menu(ctx):
@@ -96,7 +110,7 @@ def menu(ctx):
         for name in ("u", "a"):
             for conn in (None, {"x": "a", "s": "b"}, {"i": "a", "o": "b"}, {"i": "zz"}, {"nope": "a"}, {"o": "bb.i", "i": "bb.o"}):
                 ops.append(("add_subcircuit", ch, name, conn))
-    for ch in ("inv", "ha", "clash", "nested"):
+    for ch in ("inv", "ha", "clash", "nested", "noin", "extra"):
         for name in ("bb", "nb"):
             ops.append(("fill_blackbox", name, ch))
     ops.append(("add_subcircuit", "nested", "bb", None))
